@@ -200,6 +200,123 @@ const {Writable} = require('stream');
 '''
 
 
+NAMES_PY = r'''
+import sys, json, io
+from rbql import rbql_engine, rbql_csv
+out = []
+queries = ['select *', 'update set a1 = "x"', 'update a set a2 = a1', 'select a1, b2 join b on a1 == b1', 'update set a2 = b2 join b on a1 == b1', 'select distinct count a1',
+           'select * except a2', 'select a1 as first, *', 'select top 1 *', 'select a1 where a1 == "nothing"', 'select int("x")']
+for q in queries:
+    for pol in ('quoted', 'simple', 'quoted_rfc'):
+        for sink in ('csv', 'list'):
+            names = ['a,b', 'q"t', 'plain']; jnames = ['k,1', 'v"2']
+            if 'a.' not in q:
+                names[2] = None; jnames[1] = 5           # not strings: a writer renders them
+            before = repr((names, jnames))
+            it = rbql_engine.TableIterator([['1', '2', '3'], ['4', '5', '6']], names)
+            reg = rbql_engine.ListTableRegistry([rbql_engine.ListTableInfo('b', [['1', 'p'], ['4', 'r']], jnames)])
+            w = rbql_csv.CSVWriter(io.StringIO(), False, None, ',', pol) if sink == 'csv' else rbql_engine.TableWriter([])
+            err = None
+            try:
+                rbql_engine.query(q, it, w, [], reg)
+            except Exception as e:
+                err = type(e).__name__
+            out.append({'query': '%s [%s -> %s]' % (q, pol, sink), 'before': before, 'after': repr((names, jnames)), 'err': err})
+print(json.dumps(out))
+'''
+
+NAMES_JS = r'''
+const path = require('path');
+const repo = process.env.VERIF_REPO || '/repo';
+const rbql = require(path.join(repo, 'rbql-js', 'rbql.js'));
+const rbql_csv = require(path.join(repo, 'rbql-js', 'rbql_csv.js'));
+const {Writable} = require('stream');
+const show = x => JSON.stringify(x, (k, v) => v === undefined ? '<undefined>' : v);
+(async () => {
+  const queries = ['select *', "update set a1 = 'x'", 'update a set a2 = a1', 'select a1, b2 join b on a1 == b1', 'update set a2 = b2 join b on a1 == b1', 'select distinct count a1',
+                   'select * except a2', 'select a1 as first, *', 'select top 1 *', "select a1 where a1 == 'nothing'", 'select a1.no.such'];
+  const out = [];
+  for (const q of queries) for (const pol of ['quoted', 'simple', 'quoted_rfc']) for (const sink of ['csv', 'list']) {
+    const names = ['a,b', 'q"t', null], jnames = ['k,1', 5];
+    const before = show([names, jnames]);
+    const ws = new Writable({write(c, e, cb) { cb(); }});
+    const w = sink == 'csv' ? new rbql_csv.CSVWriter(ws, false, 'utf-8', ',', pol) : new rbql.TableWriter([]);
+    let err = null;
+    try {
+      await rbql.query(q, new rbql.TableIterator([['1', '2', '3'], ['4', '5', '6']], names), w, [], new rbql.SingleTableRegistry([['1', 'p'], ['4', 'r']], jnames));
+    } catch (e) { err = String(e && e.message).slice(0, 60); }
+    out.push({query: q + ' [' + pol + ' -> ' + sink + ']', before: before, after: show([names, jnames]), err: err});
+  }
+  console.log(JSON.stringify(out));
+})();
+'''
+
+
+def column_names_untouched_check(res):
+    """the lists of column names the caller hands over (input and join) are inputs too: whatever a writer does to the header it is given, they are
+    the same objects with the same contents afterwards (names that a CSV writer would render or quote: a delimiter, a quote, None / null, a number)"""
+    for impl_name, code, cmd in (('py', NAMES_PY, [common.PY, '-W', 'ignore', '-c']), ('js', NAMES_JS, [common.NODE, '-e'])):
+        r = subprocess.run(cmd + [code], env=common.impl_env(), stdout=subprocess.PIPE, stderr=subprocess.PIPE, timeout=300)
+        try:
+            outs = json.loads(r.stdout.decode().strip().split('\n')[-1])
+        except (ValueError, IndexError):
+            raise RuntimeError('C06 column-names driver (%s) failed: %s' % (impl_name, r.stderr.decode()[-400:]))
+        nbad = 0
+        for o in outs:
+            res.evaluations += 1
+            res.nontrivial.add(('names', impl_name, o['query']))
+            if o['before'] != o['after']:
+                nbad += 1
+                if nbad <= 2:
+                    res.violations.append({'property': 'C06', 'impl': impl_name, 'why': 'a list of column names handed over by the caller was modified', 'query': o['query'],
+                                           'names_before (input, join)': o['before'], 'names_after': o['after'], 'error': o['err'], 'case_key': 'C06|names|%s|%s' % (impl_name, o['query'])})
+        res.count('column_names_cases_' + impl_name, len(outs))
+        res.count('column_names_modified_' + impl_name, nbad)
+
+
+JS_UNDEF = r'''
+const path = require('path');
+const repo = process.env.VERIF_REPO || '/repo';
+const rbql = require(path.join(repo, 'rbql-js', 'rbql.js'));
+// a snapshot that tells undefined, a hole and null apart (JSON.stringify writes all three as null)
+const snap = t => t.map(r => { const o = []; for (let i = 0; i < r.length; i++) o.push(!(i in r) ? '<hole>' : r[i] === undefined ? '<undefined>' : r[i] === null ? '<null>' : JSON.stringify(r[i])); return o.join('|') + '#' + r.length; }).join(';');
+(async () => {
+  const queries = ['select a1, a3', 'select *', 'select a1 where a2 === null', 'select a1 where a2 == null', "update set a3 = 'u'", 'select a1, b2 join b on a1 == b1', 'select * left join b on a1 == b1',
+                   'select a1, b3 strict left join b on a1 == b1', 'select distinct a2', 'select a1 order by a1', 'select a1.no.such.thing', 'select count(*), max(a3) group by a1'];
+  const out = [];
+  for (const q of queries) {
+    const A = [['k1', undefined, 10], ['k2', null, 20], ['k3', , 30], [undefined, 'x', undefined], ['k1', 'y']];
+    const B = [['k1', undefined, 'p'], ['k2', , 'q'], ['k3', null]];
+    const before = snap(A) + ' // ' + snap(B);
+    let err = null;
+    try { await rbql.query_table(q, A, [], [], B); } catch (e) { err = String(e && e.message).slice(0, 60); }
+    out.push({query: q, before: before, after: snap(A) + ' // ' + snap(B), err: err});
+  }
+  console.log(JSON.stringify(out));
+})();
+'''
+
+
+def js_undefined_cells(res):
+    """rbql-js over arrays with undefined cells and holes: the caller's arrays are the same afterwards, undefined staying undefined and a hole staying a hole"""
+    r = subprocess.run([common.NODE, '-e', JS_UNDEF], env=common.impl_env(), stdout=subprocess.PIPE, stderr=subprocess.PIPE, timeout=300)
+    try:
+        outs = json.loads(r.stdout.decode().strip().split('\n')[-1])
+    except (ValueError, IndexError):
+        raise RuntimeError('C06 js undefined-cells driver failed: ' + r.stderr.decode()[-400:])
+    nbad = 0
+    for o in outs:
+        res.evaluations += 1
+        res.nontrivial.add(('js-undef', o['query']))
+        if o['before'] != o['after']:
+            nbad += 1
+            if nbad <= 2:
+                res.violations.append({'property': 'C06', 'impl': 'js', 'why': 'rbql-js: the input / join arrays of the caller differ after the query (undefined cells or holes rewritten)', 'query_js': o['query'],
+                                       'tables_before': o['before'], 'tables_after': o['after'], 'error': o['err'], 'case_key': 'C06|js-undef|' + o['query']})
+    res.count('js_undefined_cell_cases', len(outs))
+    res.count('js_undefined_cell_failures', nbad)
+
+
 def js_nested_csv():
     r = subprocess.run([common.NODE, '-e', JS_NESTED], env=common.impl_env(), stdout=subprocess.PIPE, stderr=subprocess.PIPE, timeout=300)
     try:
@@ -300,6 +417,8 @@ def run(res, tier, seed):
             res.violations.append({'property': 'C06', 'impl': 'js', 'why': 'rbql-js: a nested array of the caller table was modified when the output went to a CSV writer', 'query_js': o['query'],
                                    'A_before': o['before'], 'A_after': o['after'], 'case_key': 'C06|js-nested-csv|' + o['query']})
             break
+    column_names_untouched_check(res)
+    js_undefined_cells(res)
     # (c) pandas, (d) sqlite file, (e) CSV files
     rect = [c for c in cases if c['A'] and len(set(len(r) for r in c['A'])) == 1 and all(isinstance(x, str) for r in c['A'] for x in r)
             and (c.get('B') is None or (c['B'] and all(len(r) == 2 and all(isinstance(x, str) for x in r) for r in c['B'])))][:300 if tier == 'quick' else 3000]
